@@ -13,6 +13,9 @@ use smoltcp::wire::{EthernetAddress, HardwareAddress, Ieee802154Address, Ieee802
 use std::collections::VecDeque;
 use std::panic::{catch_unwind, AssertUnwindSafe};
 
+pub const IFACE_SHORT: [u8; 2] = [0xab, 0x01];
+/// fe80::ff:fe00:ab01 (RFC 4944 §6: interface identifier of a 16-bit short address)
+pub const IFACE6_SHORT: [u8; 16] = [0xfe, 0x80, 0, 0, 0, 0, 0, 0, 0, 0, 0, 0xff, 0xfe, 0, 0xab, 0x01];
 pub const GW_MAC: [u8; 6] = [2, 0, 0, 0, 0, 0xfe];
 pub const GW_EXT: [u8; 8] = [2, 0, 0, 0, 0, 0, 0, 0xfe];
 
@@ -186,8 +189,22 @@ pub struct RigCfg {
     pub ula_addr: bool,
     /// transmit buffer pre-fill (POISON or POISON2)
     pub poison: u8,
+    /// 802.15.4 only: the interface has the SHORT hardware address IFACE_SHORT instead of the
+    /// extended one (MAC headers of 9 / 15 instead of 15 / 21 octets)
+    pub short_hw: bool,
+    /// 802.15.4 with short_hw only: the link-local address is fe80::ff:fe00:ab01, the one derived
+    /// from the short address (fully elided by IPHC), instead of fe80::1
+    pub ll_from_short: bool,
 }
 impl RigCfg {
+    /// the interface's link-local address
+    pub fn ll(&self) -> [u8; 16] {
+        if self.ll_from_short {
+            IFACE6_SHORT
+        } else {
+            IFACE6
+        }
+    }
     pub fn dev_mtu(&self) -> usize {
         match self.medium {
             Medium::Ethernet => self.ip_mtu + 14,
@@ -195,7 +212,7 @@ impl RigCfg {
         }
     }
     pub fn name(&self) -> String {
-        format!("{}/mtu{}/{}{}", medium_name(self.medium), self.ip_mtu, CAP_NAMES[self.caps], if self.poison == POISON { String::new() } else { format!("/tx-prefill-{:02x}", self.poison) })
+        format!("{}/mtu{}/{}{}", medium_name(self.medium), self.ip_mtu, CAP_NAMES[self.caps], if self.poison == POISON { String::new() } else { format!("/tx-prefill-{:02x}", self.poison) }) + if self.short_hw { "/short-hw-address" } else { "" } + if self.ll_from_short { "+derived-ll" } else { "" }
     }
 }
 
@@ -257,6 +274,7 @@ impl Rig {
         let hw = match medium {
             Medium::Ethernet => HardwareAddress::Ethernet(EthernetAddress(IFACE_MAC)),
             Medium::Ip => HardwareAddress::Ip,
+            Medium::Ieee802154 if cfg.short_hw => HardwareAddress::Ieee802154(Ieee802154Address::Short(IFACE_SHORT)),
             Medium::Ieee802154 => HardwareAddress::Ieee802154(Ieee802154Address::Extended(IFACE_EXT)),
         };
         let mut c = Config::new(hw);
@@ -272,7 +290,7 @@ impl Rig {
                 a.push(IpCidr::new(ip4(&IFACE4), 24)).unwrap();
             }
             if cfg.ll_addr {
-                a.push(IpCidr::new(ip6(&IFACE6), 64)).unwrap();
+                a.push(IpCidr::new(ip6(&cfg.ll()), 64)).unwrap();
             }
             if cfg.ula_addr {
                 a.push(IpCidr::new(ip6(&IFACE6_ULA), 64)).unwrap();
@@ -476,9 +494,10 @@ impl Rig {
     }
     fn teach_v6(&mut self) {
         if self.cfg.ll_addr {
-            let f = self.ns_frame(&PEER6, &PEER_MAC, PEER_EXT, &IFACE6, true, false);
+            let me = self.cfg.ll();
+            let f = self.ns_frame(&PEER6, &PEER_MAC, PEER_EXT, &me, true, false);
             self.inject(f);
-            let f = self.ns_frame(&GW6, &GW_MAC, GW_EXT, &IFACE6, true, false);
+            let f = self.ns_frame(&GW6, &GW_MAC, GW_EXT, &me, true, false);
             self.inject(f);
         }
         if self.cfg.ula_addr {
